@@ -3,6 +3,7 @@
 From Coq Require Import ZArith NArith List Bool String.
 From CA Require Import Gen.Generated Model.Lexer Model.Parser Model.BigIntOps Model.Evaluator Spec.Sem Spec.SemEval Spec.Grammar
   Proofs.BitOpsP.
+From CA Require Import Model.Literal Spec.EvalWf Spec.LiteralSpec Spec.StrCodec Proofs.C05More.
 Import ListNotations.
 Open Scope Z_scope.
 
@@ -47,6 +48,151 @@ Theorem C05_token_table : Generated.tokens = (keywords_as_strings ++ specials_as
 Proof. vm_compute. reflexivity. Qed.
 Theorem C05_limits : Generated.PARSE_RECURSION_DEPTH_MAX = Z.of_nat PARSE_DEPTH_MAX /\ Generated.BIGINT_MAX_BITS = BIGINT_MAX_BITS.
 Proof. vm_compute. split; reflexivity. Qed.
+
+
+(* --- the whole evaluator: the code's algorithms = plain mathematics, on every well-formed expression --- *)
+Theorem C05_eval_sem : forall pvar e ctx, wf_pvar pvar -> wf_expr e -> wf_ctx ctx ->
+  eval code_ops pvar e ctx = eval math_ops pvar e ctx.
+Proof. exact C05More.C05_eval_sem. Qed.
+Theorem C05_eval_wf : forall pvar e ctx v ctx', wf_pvar pvar -> wf_expr e -> wf_ctx ctx ->
+  eval math_ops pvar e ctx = EOk (v, ctx') -> wf_value v /\ wf_ctx ctx'.
+Proof. exact C05More.C05_eval_wf. Qed.
+Theorem C05_parse_wf : forall t e w, scalar_text t -> parse_text t = POk e w -> wf_expr e.
+Proof. exact C05More.C05_parse_wf. Qed.
+Theorem C05_str_wf : forall s enc, scalar_text s -> wf (str_bigint s enc).
+Proof. exact C05More.C05_str_wf. Qed.
+Theorem C05_run_sem : forall t, scalar_text t -> run code_ops t = run math_ops t.
+Proof. exact C05More.C05_run_sem. Qed.
+
+(* --- number literals --- *)
+Theorem C05_literal :
+  (forall body, number_literal (48 :: 98 :: body)%N = literal_spec 2 body) /\      (* 0b *)
+  (forall body, number_literal (48 :: 111 :: body)%N = literal_spec 8 body) /\     (* 0o *)
+  (forall body, number_literal (48 :: 120 :: body)%N = literal_spec 16 body) /\    (* 0x *)
+  (forall body, number_literal (37 :: body)%N = literal_spec 2 body) /\            (* %  *)
+  (forall body, number_literal (36 :: body)%N = literal_spec 16 body) /\           (* $  *)
+  (forall t, has_prefix t = false -> number_literal t = literal_spec 10 t) /\
+  (forall radix body v sz, literal_spec radix body = Some (v, sz) ->
+     exists ds, digit_list body = Some ds /\ ds <> [] /\ Forall (fun d => (d < radix)%N) ds /\
+                v = value_of_digits radix ds /\
+                sz = match bits_per_digit radix with Some k => Some (k * N.of_nat (List.length ds))%N | None => None end) /\
+  (forall radix body, literal_spec radix body = None <->
+     match digit_list body with Some ds => ds = [] \/ Exists (fun d => (radix <= d)%N) ds | None => True end) /\
+  (forall t v s, number_literal t = Some (v, Some s) -> Z.of_N v < 2 ^ Z.of_N s).
+Proof. exact C05More.C05_literal. Qed.
+
+(* --- ill-typed or undefined operations are errors, for arbitrary subexpressions (any primitives, any provider) --- *)
+Theorem C05_errors : forall (O : ops) (pvar : N -> list text -> eres value),
+  (forall o a b ctx va c1 vb c2 x y, o = Div \/ o = Mod ->
+     eval O pvar a ctx = EOk (va, c1) -> eval O pvar b c1 = EOk (vb, c2) ->
+     get_bigint va = Some x -> get_bigint vb = Some y -> bv y = 0 ->
+     eval O pvar (EBin o a b) ctx = EErr) /\
+  (forall a b ctx va c1 vb c2 x y,
+     eval O pvar a ctx = EOk (va, c1) -> eval O pvar b c1 = EOk (vb, c2) ->
+     get_bigint va = Some x -> get_bigint vb = Some y -> bsz x = None \/ bsz y = None ->
+     eval O pvar (EBin Concat a b) ctx = EErr) /\
+  (forall l r a ctx v c0 x lb c1 rb c2,
+     eval O pvar a ctx = EOk (v, c0) -> get_bigint v = Some x ->
+     eval O pvar l c0 = EOk (VInt lb, c1) -> eval O pvar r c1 = EOk (VInt rb, c2) ->
+     bv lb + 1 < bv rb ->
+     eval O pvar (ESlice l r a) ctx = EErr) /\
+  (forall c t f ctx v c1,
+     eval O pvar c ctx = EOk (v, c1) -> should_propagate v = false -> (forall b, v <> VBool b) ->
+     eval O pvar (ETern c t f) ctx = EErr) /\
+  (forall o a b ctx v c1, o = LazyAnd \/ o = LazyOr ->
+     eval O pvar a ctx = EOk (v, c1) -> should_propagate v = false -> (forall x, v <> VBool x) ->
+     eval O pvar (EBin o a b) ctx = EErr) /\
+  (forall o a b ctx x c1 v c2, (o = LazyAnd /\ x = true) \/ (o = LazyOr /\ x = false) ->
+     eval O pvar a ctx = EOk (VBool x, c1) ->
+     eval O pvar b c1 = EOk (v, c2) -> should_propagate v = false -> (forall y, v <> VBool y) ->
+     eval O pvar (EBin o a b) ctx = EErr) /\
+  (forall o a b ctx x c1 y c2, strict_op o = true ->
+     eval O pvar a ctx = EOk (VBool x, c1) -> eval O pvar b c1 = EOk (VBool y, c2) ->
+     match o with And | Or | Xor | Eq | Ne => False | _ => True end ->
+     eval O pvar (EBin o a b) ctx = EErr).
+Proof. exact C05More.C05_errors. Qed.
+
+(* --- strict binary operators on integer operands are int_binop; its arithmetic --- *)
+Theorem C05_eval_bin_int : forall (O : ops) pvar o a b ctx va c1 vb c2 x y, strict_op o = true ->
+  eval O pvar a ctx = EOk (va, c1) -> eval O pvar b c1 = EOk (vb, c2) ->
+  get_bigint va = Some x -> get_bigint vb = Some y ->
+  eval O pvar (EBin o a b) ctx = match int_binop O o x y with EOk v => EOk (v, c2) | EErr => EErr end.
+Proof. exact C05More.eval_bin_int. Qed.
+Theorem C05_div_trunc : forall O a b, bv b <> 0 ->
+  let q := Z.quot (bv a) (bv b) in
+  int_binop O Div a b = EOk (VInt (un q)) /\
+  q = Z.sgn (bv a) * Z.sgn (bv b) * (Z.abs (bv a) / Z.abs (bv b)) /\
+  Z.abs (q * bv b) <= Z.abs (bv a) < Z.abs (q * bv b) + Z.abs (bv b).
+Proof. exact C05More.C05_div_trunc. Qed.
+Theorem C05_mod_sign : forall O a b, bv b <> 0 ->
+  let r := Z.rem (bv a) (bv b) in
+  int_binop O Mod a b = EOk (VInt (un r)) /\
+  bv a = bv b * Z.quot (bv a) (bv b) + r /\
+  Z.abs r < Z.abs (bv b) /\
+  (r = 0 \/ Z.sgn r = Z.sgn (bv a)).
+Proof. exact C05More.C05_mod_sign. Qed.
+Theorem C05_shifts : forall O a b,
+  (forall v, int_binop O Shl a b = EOk v -> 0 <= bv b /\ v = VInt (un (bv a * 2 ^ bv b))) /\
+  (forall v, int_binop O Shr a b = EOk v -> 0 <= bv b /\ v = VInt (un (bv a / 2 ^ bv b)) /\
+             forall i, 0 <= i -> Z.testbit (bv a / 2 ^ bv b) i = Z.testbit (bv a) (i + bv b)) /\
+  (bv b < 0 -> int_binop O Shl a b = EErr /\ int_binop O Shr a b = EErr) /\
+  (0 <= bv b <= u32_max -> bits (bv a) + bv b < BIGINT_MAX_BITS -> int_binop O Shl a b = EOk (VInt (un (bv a * 2 ^ bv b)))) /\
+  (0 <= bv b <= usize_max -> int_binop O Shr a b = EOk (VInt (un (bv a / 2 ^ bv b)))).
+Proof. exact C05More.C05_shifts. Qed.
+Theorem C05_bitwise : forall O a b,
+  (exists r, int_binop O And a b = EOk (VInt (un r)) /\ forall i, Z.testbit r i = Z.testbit (bv a) i && Z.testbit (bv b) i) /\
+  (exists r, int_binop O Or a b = EOk (VInt (un r)) /\ forall i, Z.testbit r i = Z.testbit (bv a) i || Z.testbit (bv b) i) /\
+  (exists r, int_binop O Xor a b = EOk (VInt (un r)) /\ forall i, Z.testbit r i = xorb (Z.testbit (bv a) i) (Z.testbit (bv b) i)) /\
+  (forall i, 0 <= i -> Z.testbit (not_bytes (bv a)) i = negb (Z.testbit (bv a) i)).
+Proof. exact C05More.C05_bitwise. Qed.
+Theorem C05_arith : forall O a b,
+  (forall v, int_binop O Add a b = EOk v -> v = VInt (un (bv a + bv b))) /\
+  (forall v, int_binop O Sub a b = EOk v -> v = VInt (un (bv a - bv b))) /\
+  (forall v, int_binop O Mul a b = EOk v -> v = VInt (un (bv a * bv b))) /\
+  int_binop O Eq a b = EOk (VBool (bv a =? bv b)) /\ int_binop O Ne a b = EOk (VBool (negb (bv a =? bv b))) /\
+  int_binop O Lt a b = EOk (VBool (bv a <? bv b)) /\ int_binop O Le a b = EOk (VBool (bv a <=? bv b)) /\
+  int_binop O Gt a b = EOk (VBool (bv b <? bv a)) /\ int_binop O Ge a b = EOk (VBool (bv b <=? bv a)).
+Proof. exact C05More.C05_arith. Qed.
+Theorem C05_slice_concat_value : forall x left right, wf x ->
+  slice x left right = mk ((bv x / 2 ^ Z.of_N right) mod 2 ^ Z.of_N (left - right)) (Some (left - right)%N) /\
+  forall y sx sy, concat x sx y sy = mk ((bv x mod 2 ^ Z.of_N sx) * 2 ^ Z.of_N sy + bv y mod 2 ^ Z.of_N sy) (Some (sx + sy)%N).
+Proof. exact C05More.C05_slice_concat_value. Qed.
+
+(* --- strings --- *)
+Theorem C05_strings :
+  (forall s, scalar_text s -> string_contents (34 :: escape s ++ [34])%N%list = Some s) /\
+  (forall O s e, eval_builtin O s_strlen [VStr s e] = EOk (VInt (un (Z.of_N (bytes_len s))))) /\
+  (forall s, Z.of_nat (List.length (utf8_bytes s)) = Z.of_N (bytes_len s)) /\
+  (forall enc s, (enc <= 4)%N -> scalar_text s -> decode enc (encode enc s) = Some s) /\
+  (forall enc s, (4 < enc)%N -> encode enc s = map (fun c => if (256 <=? c)%N then 0 else Z.of_N c) s) /\
+  (forall enc s, scalar_text s -> Forall (fun b => 0 <= b < 256) (encode enc s)).
+Proof. exact C05More.C05_strings. Qed.
+Theorem C05_string_value : forall s enc,
+  bv (str_bigint s enc) = from_bytes_be (encode enc s) /\
+  bsz (str_bigint s enc) = Some (N.of_nat (8 * List.length (encode enc s))).
+Proof. exact C05More.C05_string_value. Qed.
+
+(* non-vacuity of the families above *)
+Example C05_more_nonvacuous :
+  (let t := [108;101;40;48;120;49;50;51;52;41;32;64;32;40;33;53;41;91;55;58;48;93]%N in   (* le(0x1234) @ (!5)[7:0] *)
+   scalar_text t /\
+   match parse_text t with POk e _ => wf_expr e | _ => False end /\
+   match run code_ops t with POk (_, r) _ => r = EOk (VInt (mk 0x3412fa (Some 24%N))) | _ => False end /\
+   match run math_ops t with POk (_, r) _ => r = EOk (VInt (mk 0x3412fa (Some 24%N))) | _ => False end) /\
+  eval code_ops dummy_var (EBin Div (ENum 1 None) (ENum 0 None)) [] = EErr /\
+  eval code_ops dummy_var (EBin Concat (ENum 1 None) (ENum 0 (Some 1%N))) [] = EErr /\
+  eval code_ops dummy_var (ESlice (ENum 1 None) (ENum 3 None) (ENum 5 None)) [] = EErr /\
+  eval code_ops dummy_var (ETern (ENum 1 None) (ENum 3 None) (ENum 5 None)) [] = EErr /\
+  eval code_ops dummy_var (EBin LazyAnd (EBool true) (ENum 5 None)) [] = EErr /\
+  int_binop code_ops Div (un (-7)) (un 2) = EOk (VInt (un (-3))) /\ int_binop code_ops Mod (un (-7)) (un 2) = EOk (VInt (un (-1))) /\
+  int_binop code_ops Shr (un (-7)) (un 1) = EOk (VInt (un (-4))) /\ int_binop code_ops Shl (un (-7)) (un 2) = EOk (VInt (un (-28))) /\
+  int_binop code_ops And (un (-2)) (un 7) = EOk (VInt (un 6)) /\
+  number_literal [48;120;102;95;70]%N = Some (255%N, Some 8%N) /\ number_literal [48;98;50]%N = None /\
+  string_contents (34 :: escape [34;233;0x1F600] ++ [34])%N%list = Some [34;233;0x1F600]%N /\
+  decode 1 (encode 1 [0x1F600]%N) = Some [0x1F600]%N /\ encode 5 [65;233;0x20AC]%N = [65;233;0].
+Proof. exact C05More.C05More_nonvacuous. Qed.
+(* ==== END ==== *)
+Print Assumptions C05_eval_sem. Print Assumptions C05_strings. Print Assumptions C05_errors. Print Assumptions C05_literal.
 
 (* non-vacuity *)
 Example C05_nonvacuous :
